@@ -4,6 +4,7 @@ import (
 	"fmt"
 	"math/big"
 	"math/rand"
+	"strings"
 	"time"
 
 	sdkmath "cosmossdk.io/math"
@@ -188,8 +189,14 @@ func runFees(j Job) *Result {
 			res.Inconclusive = "monitor panic: " + mp
 		}
 		if w.Dead && len(c.Panics) > 0 {
-			res.Notes = append(res.Notes, fmt.Sprintf("%s halted: %s", hist, c.Panics[len(c.Panics)-1].Value))
+			pp := c.Panics[len(c.Panics)-1]
+			res.Notes = append(res.Notes, fmt.Sprintf("%s halted: %s", hist, pp.Value))
 			res.Counters["dead-histories"]++
+			// an epoch end that panics never moves / books the fees (and stops the chain): when the panic comes out of
+			// the mint or distribution code it is a violation of this property, not just a dead history
+			if site := feeFrame(pp.Stack); site != "" {
+				m.S.Violate("epoch-end-distribution-panicked", site, hist, len(w.Steps), "%s panicked while minting / distributing at an epoch end: %s", pp.Phase, pp.Value)
+			}
 		}
 		if len(c17.Samples) < 3 {
 			c17.Sample(map[string]interface{}{"history": hist, "validators": nOps, "stakes": stakes, "reward": cfg.Mint.EpochReward.String(), "mint_identifier": cfg.Mint.EpochIdentifier, "extra_avs": nAVS, "epochs": nEpochs})
@@ -209,4 +216,20 @@ func randBigInt(r *rand.Rand, bits int) *big.Int {
 	b := new(big.Int).Lsh(big.NewInt(1), uint(bits))
 	x := new(big.Int).Rand(r, b)
 	return x.Add(x, big.NewInt(1))
+}
+
+// feeFrame returns the innermost x/feedistribution or x/exomint frame of a panic stack ("" if none).
+func feeFrame(stack string) string {
+	for _, ln := range strings.Split(stack, "\n") {
+		for _, mod := range []string{"x/feedistribution/keeper.", "x/exomint/keeper."} {
+			if i := strings.Index(ln, mod); i >= 0 {
+				f := ln[i:]
+				if j := strings.Index(f, "("); j > 0 {
+					f = f[:j]
+				}
+				return strings.TrimSuffix(f, "(...)")
+			}
+		}
+	}
+	return ""
 }
